@@ -187,34 +187,46 @@ func (m *machine) intrinsic(name string, fn *ssa.Function, args []value, pos tok
 		for _, b := range bs {
 			if b.sym() {
 				ascii = append(ascii, tt.bvcmp("bvult", b.t, tt.bvc(8, 0x80)))
-			} else if b.c >= 0x80 {
-				ascii = append(ascii, tt.boolc(false))
 			}
 		}
 		if !m.decide(m.mkBool(tt.and(ascii...))) {
 			panic(abortPath{"unsupported:case mapping of non-ASCII symbolic text"})
 		}
-		out := make([]iv, len(bs))
+		// symbolic bytes are ASCII here, so they never combine with neighbours into a rune:
+		// map them individually and let the host map the maximal concrete segments
 		lower := strings.HasSuffix(name, "ToLower")
-		for i, b := range bs {
+		var out []iv
+		var seg []byte
+		flush := func() {
+			if len(seg) == 0 {
+				return
+			}
+			var r string
+			if lower {
+				r = strings.ToLower(string(seg))
+			} else {
+				r = strings.ToUpper(string(seg))
+			}
+			for i := 0; i < len(r); i++ {
+				out = append(out, iv{w: 8, c: uint64(r[i])})
+			}
+			seg = seg[:0]
+		}
+		for _, b := range bs {
 			if !b.sym() {
-				c := byte(b.c)
-				if lower && c >= 'A' && c <= 'Z' {
-					c += 32
-				} else if !lower && c >= 'a' && c <= 'z' {
-					c -= 32
-				}
-				out[i] = iv{w: 8, c: uint64(c)}
+				seg = append(seg, byte(b.c))
 				continue
 			}
+			flush()
 			if lower {
 				isU := tt.and(tt.bvcmp("bvuge", b.t, tt.bvc(8, 'A')), tt.bvcmp("bvule", b.t, tt.bvc(8, 'Z')))
-				out[i] = m.mkIv(8, false, tt.ite(isU, tt.bvbin("bvadd", b.t, tt.bvc(8, 32)), b.t))
+				out = append(out, m.mkIv(8, false, tt.ite(isU, tt.bvbin("bvadd", b.t, tt.bvc(8, 32)), b.t)))
 			} else {
 				isL := tt.and(tt.bvcmp("bvuge", b.t, tt.bvc(8, 'a')), tt.bvcmp("bvule", b.t, tt.bvc(8, 'z')))
-				out[i] = m.mkIv(8, false, tt.ite(isL, tt.bvbin("bvsub", b.t, tt.bvc(8, 32)), b.t))
+				out = append(out, m.mkIv(8, false, tt.ite(isL, tt.bvbin("bvsub", b.t, tt.bvc(8, 32)), b.t)))
 			}
 		}
+		flush()
 		if strings.HasPrefix(name, "bytes.") {
 			return bytesToSlice(out), true
 		}
